@@ -49,6 +49,13 @@ type c13Plan struct {
 	// HTLC output with the preimage.
 	claims  map[int]int32
 	horizon int32
+
+	// kind: channel class (c13Kind*); tap: 0 no taproot, 1 simple taproot
+	// (staging scripts), 2 taproot final; blobs: the taproot resolutions
+	// carry resolution blobs (aux channel).
+	kind  int
+	tap   int
+	blobs bool
 }
 
 func (p *c13Plan) String() string {
@@ -59,8 +66,9 @@ func (p *c13Plan) String() string {
 	sort.Strings(cl)
 
 	return fmt.Sprintf("conf=%s pre=%v preHeight=%d closeHeight=%d "+
-		"claims=%v horizon=%d", ccConfNames[p.conf], p.pre, p.preHeight,
-		p.closeHeight, cl, p.horizon)
+		"claims=%v horizon=%d kind=%s tap=%d blobs=%v", ccConfNames[p.conf],
+		p.pre, p.preHeight, p.closeHeight, cl, p.horizon,
+		c13KindNames[p.kind], p.tap, p.blobs)
 }
 
 // c13Outcome is what an observer outside the process can see at the end.
@@ -86,6 +94,14 @@ type c13Outcome struct {
 	crashLast     []string          // last effect before each death
 	inconclusive  string
 	contradiction []uint64
+
+	// inputs: everything handed to the sweeper, over all process lives;
+	// inputErrs: violations of the input model (oracle a) and sweeps
+	// that could never confirm.
+	inputs    []c13InputRec
+	inputErrs []string
+	// nursery stub activity.
+	nurseryTimeoutTx, nurseryKidSweeps, publishedConfirmed int
 }
 
 func c13Set(in []string) []string {
@@ -140,14 +156,22 @@ func c13Run(t *testing.T, sc *ccScenario, plan *c13Plan,
 
 	w := newCcWorld(int32(plan.preHeight))
 	w.applyKnowledge(sc)
+	env := newC13Env(sc, plan, w)
+	w.sweepHook = env.sweepHook
 	for i, h := range plan.claims {
 		x := &sc.HTLCs[i]
 		op := wire.OutPoint{
 			Hash:  ccCommitHash(plan.conf),
 			Index: uint32(x.Out[plan.conf]),
 		}
-		w.remoteClaim[op] = ccClaim{
+		claim := ccClaim{
 			height: h, pre: x.Pre, local: plan.conf == ccL,
+		}
+		if plan.tap > 0 {
+			// The peer's witness has the taproot shape.
+			env.tapClaims[op] = claim
+		} else {
+			w.remoteClaim[op] = claim
 		}
 	}
 
@@ -165,12 +189,18 @@ func c13Run(t *testing.T, sc *ccScenario, plan *c13Plan,
 		w.mu.Unlock()
 
 		inc := w.newInc()
+		w.mu.Lock()
+		env.life = n + 1
+		w.mu.Unlock()
 		db, err := c13OpenDB(path)
 		if err != nil {
 			out.inconclusive = "open: " + err.Error()
 			return out
 		}
 		mkLog := func(cfg ChannelArbitratorConfig) (ArbitratorLog, error) {
+			// The log hands this config to the resolvers it restores.
+			env.patch(&cfg, inc)
+
 			return newBoltArbitratorLog(
 				db, cfg, chainhash.Hash(testChainHash), ccChanPoint,
 			)
@@ -188,6 +218,7 @@ func c13Run(t *testing.T, sc *ccScenario, plan *c13Plan,
 			out.inconclusive = "build: " + err.Error()
 			return out
 		}
+		env.patch(&arb.cfg, inc)
 
 		finish := func() {
 			ccStop(arb)
@@ -265,9 +296,9 @@ func c13Run(t *testing.T, sc *ccScenario, plan *c13Plan,
 					w.height = int32(plan.closeHeight)
 				}
 				w.applyClaimsLocked()
+				env.applyClaimsLocked()
 				w.mu.Unlock()
-				_ = ccDeliverClose(arb, sc, plan.conf,
-					plan.closeHeight)
+				_ = c13DeliverClose(arb, sc, plan, plan.closeHeight)
 
 				continue
 			}
@@ -275,8 +306,14 @@ func c13Run(t *testing.T, sc *ccScenario, plan *c13Plan,
 			if key := w.pumpOne(inc); key != "" {
 				continue
 			}
+			// Nothing else is pending: the nursery / the mempool
+			// move (that takes a block in reality).
+			if key := env.pumpNursery(inc); key != "" {
+				continue
+			}
 			if height < plan.horizon {
 				w.mine()
+				env.applyClaims()
 				// handleBlockbeat in a closed state.
 				arb.launchResolvers()
 
@@ -364,6 +401,14 @@ func c13Run(t *testing.T, sc *ccScenario, plan *c13Plan,
 	out.effLog = append([]string(nil), w.effLog...)
 	out.broadcast = w.forceClose > 0
 	out.notifyUnres = append([]int(nil), w.unresolvedAtNotify...)
+	out.inputs = env.inputs
+	out.inputErrs = env.checkInputs()
+	for _, e := range w.hookErrs {
+		out.inputErrs = append(out.inputErrs, e.Error())
+	}
+	out.nurseryTimeoutTx = env.nurseryTimeoutTx
+	out.nurseryKidSweeps = env.nurseryKidSweeps
+	out.publishedConfirmed = env.publishedConfirmed
 
 	return out
 }
